@@ -117,4 +117,38 @@ def tnValue (R C : Int) (d : Dist Int) (sample : BVec) : Except Err Result :=
 def tnValueR (R C : Int) (d : Dist Int) (sample : BVec) : Except Err Result :=
   contract (rplanarTn R C d sample).transpose none false none none none none
 
+/-! ### the procedure of `RotatedPlanarMPSDecoder._coset_probabilities`: this decoder shares NOTHING between cosets —
+    four plain `mps2d.contract(tns[i])` calls per mode -/
+
+/-- `coset_ps[i] = mps2d.contract(tns[i])`: a full contraction returns a scalar (a `(mps, mult)` pair could not be
+    processed as a number: TypeError) -/
+def fullValue (tn : Net) : Except Err Int :=
+  match contract tn none false none none none none with
+  | .error e => .error e
+  | .ok (.scalar v) => .ok v
+  | .ok _ => .error .type
+
+/-- `tns = [create_tn(prob_dist, sp) for sp in sample_paulis]` -/
+def tnsOf (R C : Int) (d : Dist Int) (f : BVec) : List Net :=
+  (recoveries4 (RotatedPlanar.logicalX R C) (RotatedPlanar.logicalZ R C) f).map (rplanarTn R C d)
+
+/-- `coset_ps_col` (mode 'c') -/
+def cosetValuesC (R C : Int) (d : Dist Int) (f : BVec) : Except Err (List Int) := (tnsOf R C d f).mapM fullValue
+
+/-- `coset_ps_row` (mode 'r'): `tns = [mps2d.transpose(tn) for tn in tns]` first -/
+def cosetValuesR (R C : Int) (d : Dist Int) (f : BVec) : Except Err (List Int) :=
+  ((tnsOf R C d f).map Net.transpose).mapM fullValue
+
+/-- mode 'a': by column, then by row, then `sum(coset_p) / len(coset_p)` per coset -/
+def cosetValuesA (R C : Int) (d : Dist Int) (f : BVec) : Except Err (List Rat) :=
+  match cosetValuesC R C d f with
+  | .error e => .error e
+  | .ok c =>
+    match cosetValuesR R C d f with
+    | .error e => .error e
+    | .ok r => .ok (PlanarTn.averageValues c r)
+
+/-- the bookkeeping as the harness records it: four full contractions `c<i>:None:None:None` -/
+def fullTrace : String := ",".intercalate ((List.range 4).map fun i => s!"c{i}:None:None:None")
+
 end Qec.RotatedPlanarTn
